@@ -485,6 +485,46 @@ static void run(void) {
             case_neighbors(h, &r);
         }
     }
+    /* wedge seams inside the pentagon base cells (round 9, W9_C05): the descendants of a pentagon whose first non-zero digit
+     * is 5 (IK) and those whose first non-zero digit is 3 (JK) meet along the seam left by the deleted K wedge; stepping across
+     * it re-rotates the index by its *leading* digit, which for a fine cell with the leading digit at level L sits up to
+     * fourteen digits above the finest one.  Pentagon neighbourhoods only reach L = res (seam next to the pentagon); here the
+     * leading digit is placed at every level L < res and the seam is located by bisection between the centres of the two res-L
+     * cells (p,0..0,5) and (p,0..0,3) (and of one other pair of adjacent wedges). */
+    for (int res = 2; res <= 15; res++)
+        for (int kp = 0; kp < 12; kp++) {
+            if (!VF.thorough && (kp + res) % 4) continue;
+            for (int L = 1; L < res; L++)
+                for (int pair = 0; pair < 2; pair++) {
+                    if (!VF_MINE(idx++)) continue;
+                    static const int PAIRS[5][2] = {{5, 3}, {2, 3}, {2, 6}, {4, 6}, {4, 5}};
+                    const int *pp = PAIRS[pair ? 1 + (res + L + kp) % 4 : 0];
+                    int dg[15] = {0};
+                    dg[L - 1] = pp[0];
+                    H3Index A = vf_make_cell(L, REF_PENT_BC[kp], dg);
+                    dg[L - 1] = pp[1];
+                    H3Index B = vf_make_cell(L, REF_PENT_BC[kp], dg);
+                    vf_cell ca, cb;
+                    if (vf_cell_load(A, &ca) || vf_cell_load(B, &cb)) continue;
+                    ld lo = 0, hi = 1;
+                    H3Index hlo = 0, hhi = 0, h, anc;
+                    for (int it = 0; it < 64; it++) {
+                        ld t = 0.5L * (lo + hi);
+                        LatLng g = v3_to_ll(v3_norm(v3_add(v3_scale(ca.c, 1 - t), v3_scale(cb.c, t))));
+                        if (latLngToCell(&g, res, &h) || cellToParent(h, L, &anc)) break;
+                        if (anc == A) lo = t, hlo = h;
+                        else hi = t, hhi = h;
+                    }
+                    H3Index two[2] = {hlo, hhi};
+                    for (int q = 0; q < 2; q++)
+                        if (two[q] && ref_is_valid_cell(two[q])) {
+                            case_disk(two[q], 1 + (int)vf_below(&r, 3));
+                            case_neighbors(two[q], &r);
+                            vf_add("disk.pentagon_wedge_seam_cells", 1);
+                            if (res - L >= 10) vf_add("disk.pentagon_wedge_seam_cells_leading_digit_ten_levels_up", 1);
+                        }
+                }
+        }
     vf_buf_free(d);
     /* rings of every radius up to globe-wrapping ones, every origin of res 0-1, a share of res 2 */
     if (VF.shard == 0) witness_f8();
